@@ -318,7 +318,7 @@ def run_family(case, drv, rng, tier, hist=None, stats=None):
                 hists.append(dict(defs=defs, steps=steps))
             rmodels = drv.ask(dict(p='Resolve', op='hist', lat=rl.T.lattice(), hists=hists))['out']
         for ri, ro in enumerate(regs):
-            f2 = rl.Family(case['layers'], reg_order=ro, fds=fam.fds)
+            f2 = rl.Family(case["layers"], reg_order=ro, reuse=fam)
             for ci, call in enumerate(calls):
                 r = rl.run_real(f2, call)
                 seen[ci].setdefault(outcome_key(r), ('registration order %r' % (ro,), r))
